@@ -41,7 +41,7 @@ ABC_MIXINS = {
     'pop': ['__getitem__', '__delitem__'], 'remove': ['__getitem__', '__delitem__'], 'index': ['__getitem__'],
     'count': ['__iter__'], 'reverse': ['__len__', '__getitem__', '__setitem__'], 'clear': ['__getitem__', '__delitem__'],
     '__contains__': ['__iter__'], '__reversed__': ['__len__', '__getitem__'],
-    'append': ['insert'], 'extend': ['insert'], '__iadd__': ['insert'], '__iter__': ['__getitem__'],
+    'append': ['insert'], 'extend': ['append'], '__iadd__': ['extend'], '__iter__': ['__getitem__'],     # extend: one append() per element
 }
 # builtins applied to a list-like argument -> the dunder they call on it (None: no effect on the argument)
 BUILTIN_ON_ARG = {
@@ -430,7 +430,7 @@ class Analysis:
         pairs = self._assign_pairs()
         for _ in range(6):
             for a, b in pairs:
-                if b in t and a not in t:
+                if (b in t or b == '<ctor>') and a not in t:
                     t.add(a)
                 if a in t and b is not None and b not in t and not b.startswith('<'):
                     t.add(b)
@@ -462,6 +462,8 @@ class Analysis:
                     out.append((tk, k))
                 elif self._is_fresh(arm):
                     out.append((tk, '<fresh>'))
+                    if self._ctor_of(arm) is not None:
+                        out.append((tk, '<ctor>'))   # built by a constructor of the family: a lazy list by construction
                     if self._ctor_of(arm) is None:   # K.copy(): K is a lazy list whenever the target is one
                         out.append((tk, '<recv>' + attr_chain(arm.func.value)))  # type: ignore[attr-defined,operator]
         return out
@@ -775,6 +777,18 @@ class Analysis:
             if self.exempt_self == 'flush' and q == 'self':
                 return
             if _is_empty(value):
+                return
+            src = _queue_copy_of(value)
+            sk = attr_chain(src.value) if src is not None else None
+            if sk is not None and sk in self.tracked and sk != q:
+                # X.pre = <copy of Y.pre>: X's queue holds what Y's held - X is at most as unflushed as Y was
+                ys = self.get(st, sk)
+                if ys[0] != CLEAN:
+                    why = f'`{short(target)} = {short(value, 40)}` takes over the pending entries of `{sk}`'
+                    if ys[0] == DIRTY:
+                        self.dirty(st, q, why)
+                    else:
+                        st[q] = join(self.get(st, q), (UNKNOWN, why))
                 return
             self.dirty(st, q, f'`{short(target)} = {short(value, 40)}` puts entries in a pending queue')
             return
@@ -1098,6 +1112,29 @@ def _arms(e: ast.AST) -> T.List[ast.AST]:
     if isinstance(e, ast.NamedExpr):
         return _arms(e.value)
     return [e]
+
+
+COPY_CALLS = {'list', 'tuple', 'collections.deque', 'deque', 'copy.copy', 'reversed', 'iter'}
+
+
+def _queue_copy_of(v: ast.AST) -> T.Optional[ast.Attribute]:
+    """`Y.pre` / `Y.post` behind any of the copy spellings (A5): Y.pre.copy(), list(Y.pre), deque(Y.pre), Y.pre[:], [*Y.pre],
+    type(Y.pre)(Y.pre), or the queue object itself."""
+    for _ in range(4):
+        if isinstance(v, ast.Attribute) and v.attr in QUEUES:
+            return v
+        if isinstance(v, ast.Call) and isinstance(v.func, ast.Attribute) and v.func.attr == 'copy' and not v.args and not v.keywords:
+            v = v.func.value
+        elif isinstance(v, ast.Call) and len(v.args) == 1 and not v.keywords and not isinstance(v.args[0], ast.Starred) \
+                and (attr_chain(v.func) in COPY_CALLS or (isinstance(v.func, ast.Call) and attr_chain(v.func.func) == 'type')):
+            v = v.args[0]
+        elif isinstance(v, ast.Subscript) and isinstance(v.slice, ast.Slice) and v.slice.lower is None and v.slice.upper is None:
+            v = v.value
+        elif isinstance(v, (ast.List, ast.Tuple)) and len(v.elts) == 1 and isinstance(v.elts[0], ast.Starred):
+            v = v.elts[0].value
+        else:
+            return None
+    return None
 
 
 def _is_empty(v: ast.AST) -> bool:
